@@ -95,6 +95,33 @@ def _always_leaves(body: list[ast.stmt]) -> bool:
     return False
 
 
+def inner_conditions(root: ast.AST) -> dict[int, list]:
+    """id(sub-expression) -> conjuncts that hold whenever that sub-expression of ``root`` is
+    evaluated: the test (or its negation) of every enclosing conditional expression and the
+    operands to the left of it in an enclosing ``and`` / ``or``."""
+    out: dict[int, list] = {}
+
+    def go(e: ast.AST, cs: list) -> None:
+        out[id(e)] = cs
+        if isinstance(e, ast.IfExp):
+            go(e.test, cs)
+            go(e.body, cs + conjuncts(e.test))
+            go(e.orelse, cs + _neg(e.test))
+        elif isinstance(e, ast.BoolOp):
+            acc = list(cs)
+            for v in e.values:
+                go(v, list(acc))
+                acc += conjuncts(v) if isinstance(e.op, ast.And) else _neg(v)
+        elif isinstance(e, (ast.Lambda, ast.FunctionDef, ast.AsyncFunctionDef)):
+            return
+        else:
+            for ch in ast.iter_child_nodes(e):
+                go(ch, cs)
+
+    go(root, [])
+    return out
+
+
 def conditions(fn: ast.AST) -> list[tuple[ast.stmt, list]]:
     """(statement, conjuncts that hold whenever it runs) for every statement of ``fn`` (nested
     defs excluded) — the same path conditions ``exits`` attaches to raise/return."""
